@@ -42,7 +42,7 @@ def correspond(rep, tier, seed):
     # more closures without traces (cheap)
     more = []
     per = 50 if tier == "quick" else 1500
-    for pi, prof in enumerate(("legal", "queue", "starve", "flow", "limits", "recv", "bp", "mixed", "reset", "shutdown", "control")):
+    for pi, prof in enumerate(("legal", "queue", "bufcap", "starve", "flow", "limits", "recv", "bp", "mixed", "reset", "shutdown", "control")):
         s2, _ = wake.run_coop(seed * 104729 + 17 * pi + 3, per, 110 if tier == "quick" else 150, prof, trace=False, budget=4000 if tier == "quick" else 8000)
         more.extend(s2)
     n_viol += wake.oracle_coop(rep, more, name="coop-closure")
@@ -55,7 +55,7 @@ def search(rep, tier, seed, reason=""):
     if wake.run_corpus(rep) > 0:
         return True
     for k in range(3 if tier == "quick" else 12):
-        for pi, prof in enumerate(("queue", "starve", "legal", "limits", "flow", "recv", "mixed", "bp")):
+        for pi, prof in enumerate(("queue", "bufcap", "starve", "legal", "limits", "flow", "recv", "mixed", "bp")):
             scs, _ = wake.run_coop(seed * 15485863 + k * 131 + pi, 80, 130, prof, trace=False, budget=5000)
             before = len(rep.violations)
             if wake.oracle_coop(rep, scs, name="coop-search") > 0 and len(rep.violations) > before:
